@@ -9,10 +9,13 @@
   Model: an ordering is the list of its variables; a hand-built diagram is a named tree `NBDD`; `toPos O t` is the
   positional diagram of PMC/Model/BDD.lean under `O`, about which C17.lean speaks (`Ord 0 (toPos O t)` = "respects").
 
-  FINDING (the model follows the code, see `foreign_below_root_is_KeyError`): a variable that is not in the ordering
-  raises `RuntimeError` only when it labels the ROOT of the diagram given to `respect_ordering` / `OBDD(node, ordering)`
-  / `obdd == node`; anywhere below the root it surfaces as `KeyError` (from `ListOrdering.cmp`), or is not noticed at
-  all when an out-of-order edge is met first (`False` / `ValueError`).
+  A variable that is not in the ordering (`foreign_variable_error_classes`): `respect_ordering`, `OBDD(node, ordering)`,
+  `obdd == node` and `&`, `|`, `^` raise no exception class other than `RuntimeError` for it (it used to surface as
+  `KeyError` from `ListOrdering.cmp` anywhere below the root; repaired in the library, `foreign_below_root_is_RuntimeError`)
+  — except that the variable is not noticed when an edge that does not go forward is met first in traversal order
+  (`respect_ordering` answers `False`, `OBDD(node, ordering)` / `obdd == node` raise `ValueError`: `foreign_unnoticed`).
+  A terminal node always holds a `bool` (`terminal_holds_bool`): `BDDNode(1.0)` is accepted, denotes terminal 1, and
+  the operators of `&`, `|`, `^` never raise on the values of terminals (`obdd_xor_terminals`).
 -/
 import PMC.Proofs.BDDApi
 namespace PMC.C17
@@ -33,12 +36,16 @@ theorem ordering_get_list (l O : List String) (h : make l = .ok O) : getList O =
 /-- `x in O` -/
 theorem ordering_contains_iff (O : List String) (x : String) : contains O x = true ↔ x ∈ O := contains_iff
 
-/-- `in_order(x, y)` ⇔ `position x < position y`; `KeyError` exactly when one of them is not in the ordering -/
+/-- `in_order(x, y)` ⇔ `position x < position y`; `RuntimeError` (nothing else) exactly when one of them is not in
+    the ordering -/
 theorem ordering_in_order_iff (O : List String) (x y : String) :
     inOrder O x y = .ok true ↔ ∃ i j, position O x = some i ∧ position O y = some j ∧ i < j := inOrder_true_iff
 
 theorem ordering_in_order_error_iff (O : List String) (x y : String) (e : Err) :
-    inOrder O x y = .error e ↔ (x ∉ O ∨ y ∉ O) ∧ e = .keyError := inOrder_error_iff
+    inOrder O x y = .error e ↔ (x ∉ O ∨ y ∉ O) ∧ e = .runtimeError := inOrder_error_iff
+
+theorem ordering_cmp_error_iff (O : List String) (x y : String) (e : Err) :
+    cmp O x y = .error e ↔ (x ∉ O ∨ y ∉ O) ∧ e = .runtimeError := cmp_error_iff
 
 /-- `in_order` is a strict total order on the variables of the ordering -/
 theorem ordering_strict_total (O : List String) :
@@ -87,22 +94,56 @@ theorem respect_ordering_total (O : List String) (t : NBDD) (h : ∀ v ∈ t.var
     ∃ b, respectOrdering O t = .ok b ∧ (b = true ↔ PMC.BDD.Ord 0 (toPos O t)) := by
   rw [respectOrdering_eq]; exact respect_of_vars O t h
 
-/-- **`RuntimeError` exactly when the ROOT variable is not in the ordering** -/
+/-- **the outcome is decided by the FIRST defect in traversal order** (`defects O t` lists, for each node — itself,
+    then the subdiagram `high`, then `low` — its variable when it is not in `O`, then for the edge to `low` and the edge
+    to `high` the child's variable when it is not in `O`, or the edge when it does not go forward): no defect, `True`;
+    a variable outside the ordering, `RuntimeError`; an edge that does not go forward, `False` -/
+theorem respect_ordering_eq_first_defect (O : List String) (t : NBDD) :
+    respectOrdering O t = Defect.outcome (defects O t).head? := by
+  rw [respectOrdering_eq]; exact respect_eq_outcome O t
+
+/-- the `foreign` defects are exactly the variables of the diagram that are not in the ordering -/
+theorem foreign_defect_iff (O : List String) (t : NBDD) (w : String) :
+    Defect.foreign w ∈ defects O t ↔ w ∈ t.vars ∧ w ∉ O :=
+  ⟨foreign_mem_defects, fun h => foreign_defect_of_var h.1 h.2⟩
+
+/-- a `backward` defect is an edge of the diagram between two variables of the ordering that does not go forward -/
+theorem backward_defect (O : List String) (t : NBDD) (v w : String) (h : Defect.backward v w ∈ defects O t) :
+    v ∈ t.vars ∧ w ∈ t.vars ∧ ∃ i j, position O v = some i ∧ position O w = some j ∧ j ≤ i := backward_mem_defects h
+
+/-- **`RuntimeError` exactly when the traversal looks at a variable outside the ordering before it finds an edge that
+    does not go forward** -/
 theorem respect_ordering_runtimeError_iff (O : List String) (t : NBDD) :
-    respectOrdering O t = .error .runtimeError ↔ ¬ rootIn O t := by
+    respectOrdering O t = .error .runtimeError ↔ ∃ w, (defects O t).head? = some (.foreign w) := by
   rw [respectOrdering_eq]; exact respect_runtimeError_iff O t
 
-/-- the only other exception is `KeyError`: the root variable is in the ordering, some other variable is not -/
+/-- `False` exactly when an edge that does not go forward comes first -/
+theorem respect_ordering_false_iff (O : List String) (t : NBDD) :
+    respectOrdering O t = .ok false ↔ ∃ v w, (defects O t).head? = some (.backward v w) := by
+  rw [respectOrdering_eq]; exact respect_false_iff O t
+
+/-- a ROOT variable outside the ordering always is the first defect -/
+theorem respect_ordering_root (O : List String) (t : NBDD) (h : ¬ rootIn O t) :
+    respectOrdering O t = .error .runtimeError := by
+  rw [respectOrdering_eq]; exact respect_root_runtimeError O t h
+
+/-- **`RuntimeError` is the only exception class**, and it needs a variable of the diagram outside the ordering -/
 theorem respect_ordering_error (O : List String) (t : NBDD) (e : Err) (h : respectOrdering O t = .error e) :
-    (e = .runtimeError ∧ ¬ rootIn O t) ∨ (e = .keyError ∧ rootIn O t ∧ ∃ v ∈ t.vars, v ∉ O) := by
+    e = .runtimeError ∧ ∃ v ∈ t.vars, v ∉ O := by
   rw [respectOrdering_eq] at h; exact respect_error O t e h
 
-/-- FINDING, concrete: `BDDNode('a', 0, BDDNode('z', 0, 1)).respect_ordering(['a','b','c'])` raises `KeyError` -/
-theorem foreign_below_root_is_KeyError :
-    respectOrdering ["a", "b", "c"] (node "a" (leaf false) (node "z" (leaf false) (leaf true))) = .error .keyError := by
+/-- a diagram with a variable outside the ordering is never accepted: `RuntimeError`, or `False` -/
+theorem respect_ordering_foreign (O : List String) (t : NBDD) (h : ∃ v ∈ t.vars, v ∉ O) :
+    respectOrdering O t = .error .runtimeError ∨ respectOrdering O t = .ok false := by
+  rw [respectOrdering_eq]; exact respect_foreign O t h
+
+/-- REPAIRED (was `KeyError`): `BDDNode('a', 0, BDDNode('z', 0, 1)).respect_ordering(['a','b','c'])` raises
+    `RuntimeError` -/
+theorem foreign_below_root_is_RuntimeError :
+    respectOrdering ["a", "b", "c"] (node "a" (leaf false) (node "z" (leaf false) (leaf true))) = .error .runtimeError := by
   decide
 
-/-- … and is not noticed at all when an out-of-order edge is looked at first:
+/-- FINDING (still there): … but is not noticed at all when an out-of-order edge is looked at first:
     `BDDNode('b', BDDNode('a', 0, 1), BDDNode('z', 0, 1))` answers `False` -/
 theorem foreign_unnoticed :
     respectOrdering ["a", "b", "c"]
@@ -118,6 +159,16 @@ example : respectOrdering ["a", "b", "c"] (node "a" (leaf false) (node "c" (leaf
 /-- `BDDNode(*data)`: `RuntimeError` exactly for the arities other than 1 and 3 -/
 theorem bddNode_arity (args : List PyVal) :
     BDDNode.new args = some (.error .runtimeError) ↔ args.length ≠ 1 ∧ args.length ≠ 3 := bddNode_runtimeError_iff args
+
+/-- **a terminal node always holds a `bool`**: `BDDTerminalNode(v)` for an accepted `v` is the node of `bool(v)`, and
+    its `.value` is that `bool` (so `1`, `True`, `1.0` give the same node with the same content, whichever comes first) -/
+theorem terminal_holds_bool (v : PyVal) (t : NBDD) (h : terminal v = .ok t) :
+    ∃ b, v.asBit = some b ∧ t = .leaf b ∧ t.value = some (.bool b) := terminal_value_bool v t h
+
+/-- `BDDNode(1.0)` / `BDDNode(0.0)` are accepted and denote the terminals 1 / 0, holding `True` / `False` -/
+theorem terminal_float_accepted :
+    terminal (.float 1 false) = .ok (.leaf true) ∧ terminal (.float 0 false) = .ok (.leaf false) ∧
+      (NBDD.leaf true).value = some (.bool true) ∧ (NBDD.leaf false).value = some (.bool false) := terminal_float
 
 /-- `BDDNode(v)` / `BDDTerminalNode(v)`: `TypeError` exactly for the values that are not `==` to one of 0, 1, False, True -/
 theorem terminal_typeError_iff (v : PyVal) (e : Err) :
@@ -147,20 +198,27 @@ theorem obdd_init_valueError_iff (t : NBDD) (l : List String) :
     OBDDv.init (.val (.node t)) (.list l) true = .error .valueError ↔ l.Nodup ∧ respect l t = .ok false :=
   init_node_valueError_iff t l
 
-/-- `RuntimeError` exactly when the list repeats a variable or the ROOT variable is not in it -/
+/-- `RuntimeError` exactly when the list repeats a variable or the first defect of the diagram is a variable that is
+    not in the list -/
 theorem obdd_init_runtimeError_iff (t : NBDD) (l : List String) :
-    OBDDv.init (.val (.node t)) (.list l) true = .error .runtimeError ↔ ¬ l.Nodup ∨ ¬ rootIn l t :=
+    OBDDv.init (.val (.node t)) (.list l) true = .error .runtimeError ↔
+      ¬ l.Nodup ∨ ∃ w, (defects l t).head? = some (.foreign w) :=
   init_node_runtimeError_iff t l
 
-/-- FINDING: `KeyError` when a variable below the root is not in the ordering -/
-theorem obdd_init_keyError (t : NBDD) (l : List String)
-    (h : OBDDv.init (.val (.node t)) (.list l) true = .error .keyError) : rootIn l t ∧ ∃ v ∈ t.vars, v ∉ l :=
-  init_node_keyError t l h
+/-- … in particular when the ROOT variable is not in the list -/
+theorem obdd_init_root_runtimeError (t : NBDD) (l : List String) (h : ¬ rootIn l t) :
+    OBDDv.init (.val (.node t)) (.list l) true = .error .runtimeError := init_node_root_runtimeError t l h
 
-/-- these are all the exception classes (no `TypeError` for a node and a list of names) -/
+/-- **a variable of the diagram that is not in the list: `RuntimeError`, or `ValueError` when an edge that does not go
+    forward is met first; never accepted** -/
+theorem obdd_init_foreign (t : NBDD) (l : List String) (hf : ∃ v ∈ t.vars, v ∉ l) :
+    OBDDv.init (.val (.node t)) (.list l) true = .error .runtimeError ∨
+      OBDDv.init (.val (.node t)) (.list l) true = .error .valueError := init_node_foreign t l hf
+
+/-- these are all the exception classes (no `KeyError` any more, no `TypeError` for a node and a list of names) -/
 theorem obdd_init_error_classes (t : NBDD) (l : List String) (check : Bool) (e : Err)
     (h : OBDDv.init (.val (.node t)) (.list l) check = .error e) :
-    e = .runtimeError ∨ e = .valueError ∨ e = .keyError := init_node_error_classes t l check e h
+    e = .runtimeError ∨ e = .valueError := init_node_error_classes t l check e h
 
 /-- `TypeError` for a `bfunct` that is neither a node nor a `str` (unless the list is rejected first) -/
 theorem obdd_init_typeError (v : PyVal) (hn : ∀ t, v ≠ .node t) (hs : ∀ s, v ≠ .str s) (oa : OrdArg) (check : Bool) :
@@ -188,6 +246,13 @@ theorem obdd_eq_node (self : OBDDv) (O : List String) (hO : self.ordering = some
 
 theorem obdd_eq_bit (self : OBDDv) (O : List String) (hO : self.ordering = some O) (A : PyVal) (b : Bool)
     (hA : A.asBit = some b) : self.eq A = .ok (decide (self.root = .leaf b)) := OBDDv.eq_bit self O hO A b hA
+
+/-- the exceptions of `obdd == node` for a hand-built node: `RuntimeError` (a variable of the node is not in the
+    ordering) or `ValueError` (`respect_ordering` answered `False`) -/
+theorem obdd_eq_node_error (self : OBDDv) (O : List String) (hO : self.ordering = some O) (t : NBDD) (e : Err)
+    (h : self.eq (.node t) = .error e) :
+    (e = .runtimeError ∧ ∃ v ∈ t.vars, v ∉ O) ∨ (e = .valueError ∧ respect O t = .ok false) :=
+  OBDDv.eq_node_error self O hO t e h
 
 /-- `TypeError` exactly for the operands that are neither a node, nor an OBDD, nor one of 0, 1, False, True -/
 theorem obdd_eq_typeError_iff (self : OBDDv) (O : List String) (hO : self.ordering = some O) (A : PyVal) :
@@ -225,41 +290,79 @@ theorem obdd_variables (self : OBDDv) (O : List String) :
   OBDDv.variables_support self O
 
 /-- `f & g` …: `TypeError` unless the right operand is an OBDD -/
-theorem obdd_apply_typeError (op bad : Bool → Bool → Bool) (self : OBDDv) (B : PyVal) (h : ∀ b, B ≠ .obdd b) :
-    OBDDv.apply op bad self B = .error .typeError := apply_typeError op bad self B h
+theorem obdd_apply_typeError (op : Bool → Bool → Bool) (self : OBDDv) (B : PyVal) (h : ∀ b, B ≠ .obdd b) :
+    OBDDv.apply op self B = .error .typeError := apply_typeError op self B h
 
 /-- **combining OBDDs with different orderings raises `RuntimeError`** -/
-theorem obdd_apply_different_orderings (op bad : Bool → Bool → Bool) (self b : OBDDv) (h1 : self.WF) (h2 : b.WF)
-    (h : self.ordering ≠ b.ordering) : OBDDv.apply op bad self (.obdd b) = .error .runtimeError :=
-  apply_runtimeError op bad self b h1 h2 h
+theorem obdd_apply_different_orderings (op : Bool → Bool → Bool) (self b : OBDDv) (h1 : self.WF) (h2 : b.WF)
+    (h : self.ordering ≠ b.ordering) : OBDDv.apply op self (.obdd b) = .error .runtimeError :=
+  apply_runtimeError op self b h1 h2 h
 
-/-- with the same ordering, respected by both roots, and terminals that hold `int` / `bool` values (`T.xorBad` is
-    then `false` everywhere, `xorBad_false_iff`): no exception, and the result is the positional `applyOp` (of which
-    C17.lean proves `and_spec`, `or_spec`, `xor_spec`) -/
-theorem obdd_apply_ok (op bad : Bool → Bool → Bool) (hbad : ∀ x y, bad x y = false) (self b : OBDDv) (O : List String)
+/-- with the same ordering, respected by both roots: no exception (a terminal holds a `bool`, on which no operator
+    raises), and the result is the positional `applyOp` (of which C17.lean proves `and_spec`, `or_spec`, `xor_spec`) -/
+theorem obdd_apply_ok (op : Bool → Bool → Bool) (self b : OBDDv) (O : List String)
     (h1 : self.ordering = some O) (h2 : b.ordering = some O) (r1 : respect O self.root = .ok true)
     (r2 : respect O b.root = .ok true) :
-    ∃ t, OBDDv.apply op bad self (.obdd b) = .ok ⟨t, some O⟩ ∧
+    ∃ t, OBDDv.apply op self (.obdd b) = .ok ⟨t, some O⟩ ∧
       toPos O t = applyOp op (toPos O self.root) (toPos O b.root) ∧ respect O t = .ok true :=
-  apply_ok op bad hbad self b O h1 h2 r1 r2
+  apply_ok op self b O h1 h2 r1 r2
 
-/-- FINDING: `BDDTerminalNode.Tnodes` is keyed by value and `1.0 == 1`: if the first request for a terminal is made
-    with a float (`BDDNode(1.0)`, or the constant `1.0` in a parsed expression), the node holds the float for the rest
-    of the process and `f ^ g` raises `TypeError` (`bool ^ float`) whenever the recursion reaches that terminal -/
-theorem obdd_xor_float_terminal (T : TermVals) (O : List String) (a b : Bool)
-    (h : T.isFloat a = true ∨ T.isFloat b = true) :
-    OBDDv.apply (fun x y => x != y) T.xorBad ⟨.leaf a, some O⟩ (.obdd ⟨.leaf b, some O⟩) = .error .typeError :=
-  xor_float_typeError T O a b h
+/-- **the exceptions of `f & g`, `f | g`, `f ^ g` between two OBDDs (the left one holding a `ListOrdering`)**: nothing
+    but `RuntimeError`, and only because the orderings differ or a root mentions a variable outside the ordering -/
+theorem obdd_apply_error (op : Bool → Bool → Bool) (self b : OBDDv) (O : List String) (hO : self.ordering = some O)
+    (e : Err) (h : OBDDv.apply op self (.obdd b) = .error e) :
+    e = .runtimeError ∧
+      (OBDDv.ordEq self.ordering b.ordering = false ∨ ∃ v, (v ∈ self.root.vars ∨ v ∈ b.root.vars) ∧ v ∉ O) :=
+  apply_error op self b O hO e h
 
-theorem no_float_terminal_no_raise (T : TermVals) :
-    (∀ a b, T.xorBad a b = false) ↔ T.isFloat false = false ∧ T.isFloat true = false := xorBad_false_iff T
+/-- equal orderings containing every variable of the two roots: nothing is raised, ordered roots or not -/
+theorem obdd_apply_no_error (op : Bool → Bool → Bool) (self b : OBDDv) (O : List String) (h1 : self.ordering = some O)
+    (h2 : b.ordering = some O) (v1 : ∀ v ∈ self.root.vars, v ∈ O) (v2 : ∀ v ∈ b.root.vars, v ∈ O) :
+    ∃ t, OBDDv.apply op self (.obdd b) = .ok ⟨t, some O⟩ := apply_no_error op self b O h1 h2 v1 v2
+
+/-- REPAIRED (`^` used to raise `TypeError`, `bool ^ float`, after `BDDNode(1.0)` had been the first request for
+    terminal 1): on two terminals the operator is applied to the two `bool`s they hold; nothing is raised -/
+theorem obdd_xor_terminals (O : List String) (a b : Bool) :
+    OBDDv.apply (fun x y => x != y) ⟨.leaf a, some O⟩ (.obdd ⟨.leaf b, some O⟩) = .ok ⟨.leaf (a != b), some O⟩ :=
+  xor_terminals O a b
+
+theorem compute_terminals (op : Bool → Bool → Bool) (O : Option (List String)) (n : Nat) (a b : Bool) :
+    NBDD.apply op O (n + 1) (.leaf a) (.leaf b) = .ok (.leaf (op a b)) := napply_terminals op O n a b
+
+/-! ### the guard of C17 for a variable outside the ordering -/
+
+/-- **HEADLINE**: for a diagram / operand that mentions a variable outside the ordering `O`,
+    * `OBDD(node, O)` raises `RuntimeError`, or `ValueError` (the "does not respect" branch) when an edge that does not
+      go forward is met first — and never succeeds;
+    * `obdd == node` raises only `RuntimeError` or `ValueError`;
+    * `obdd & B`, `obdd | B`, `obdd ^ B` for an OBDD `B` raise nothing but `RuntimeError`.
+    No other exception class (`KeyError`, `TypeError`, …) can arise. -/
+theorem foreign_variable_error_classes (O : List String) :
+    (∀ t : NBDD, (∃ v ∈ t.vars, v ∉ O) →
+        OBDDv.init (.val (.node t)) (.list O) true = .error .runtimeError ∨
+        OBDDv.init (.val (.node t)) (.list O) true = .error .valueError) ∧
+    (∀ (t : NBDD) (check : Bool) (e : Err), OBDDv.init (.val (.node t)) (.list O) check = .error e →
+        e = .runtimeError ∨ e = .valueError) ∧
+    (∀ (self : OBDDv) (t : NBDD) (e : Err), self.ordering = some O → self.eq (.node t) = .error e →
+        e = .runtimeError ∨ e = .valueError) ∧
+    (∀ (op : Bool → Bool → Bool) (self b : OBDDv) (e : Err), self.ordering = some O →
+        OBDDv.apply op self (.obdd b) = .error e → e = .runtimeError) := by
+  refine ⟨fun t hf => init_node_foreign t O hf, fun t check e h => init_node_error_classes t O check e h, ?_, ?_⟩
+  · intro self t e hO h
+    rcases OBDDv.eq_node_error self O hO t e h with ⟨he, _⟩ | ⟨he, _⟩
+    · exact Or.inl he
+    · exact Or.inr he
+  · intro op self b e hO h
+    exact (apply_error op self b O hO e h).1
 
 #print axioms ordering_make_ok_iff
 #print axioms ordering_get_list
 #print axioms ordering_strict_total
 #print axioms respect_ordering_true_iff
 #print axioms respect_ordering_error
-#print axioms foreign_below_root_is_KeyError
+#print axioms respect_ordering_eq_first_defect
+#print axioms respect_ordering_runtimeError_iff
+#print axioms foreign_below_root_is_RuntimeError
 #print axioms obdd_init_ok_iff
 #print axioms obdd_init_error_classes
 #print axioms obdd_eq_typeError_iff
@@ -267,5 +370,8 @@ theorem no_float_terminal_no_raise (T : TermVals) :
 #print axioms obdd_restrict_ok
 #print axioms obdd_apply_different_orderings
 #print axioms obdd_apply_ok
-#print axioms obdd_xor_float_terminal
+#print axioms obdd_apply_error
+#print axioms obdd_xor_terminals
+#print axioms terminal_holds_bool
+#print axioms foreign_variable_error_classes
 end PMC.C17
